@@ -3,6 +3,7 @@ package cache
 import (
 	"context"
 	"os"
+	"strings"
 
 	. "github.com/warpfork/go-errcat"
 
@@ -48,6 +49,12 @@ func (c cache) Unpack(
 	monitor rio.Monitor,
 ) (_ api.WareID, err error) {
 	defer RequireErrorHasCategory(&err, rio.ErrorCategory(""))
+
+	// The hash names the shelf: it has to be one path segment, or "<cached hash>/<subdir>" would be
+	//  answered -- unverified -- with a piece of another ware's shelf.
+	if strings.ContainsAny(wareID.Hash, "/\x00") || wareID.Hash == "." || wareID.Hash == ".." {
+		return api.WareID{}, Errorf(rio.ErrUsage, "invalid ware ID %q: the hash must be a single path segment", wareID)
+	}
 
 	// Zeroth thing: caches are by hash, but remember that filters can give you a
 	//  result hash which is different than the requested ware hash.
